@@ -1,7 +1,7 @@
 (* C05: one mapper at a time.
    Statements only: each theorem restates the full type of a lemma proved in coq/proofs and is closed by
    `exact`; Print Assumptions beneath.  Regenerate with bin/genprops.py after a lemma changes. *)
-From LLTD Require Import BlockFun PropsMapper.
+From LLTD Require Import BlockFun PropsMapper SystemRefinement.
 
 Theorem C05_discover_answered_iff :
   forall (ctx : N) (c : pcfg) (g : gcfg) (mtu : N) (s : ist) (buf : list N) (h : hdr),
@@ -89,3 +89,22 @@ Theorem C05_after_reset_anyone :
   active (fst (f_step ctx c g mtu (fst (f_step ctx c g mtu s rbuf)) buf)) = Some (h_rsrc h).
 Proof. exact C05_after_reset_any. Qed.
 Print Assumptions C05_after_reset_anyone.
+
+Theorem C05_on_the_buffer_level_model :
+  forall (junk ctx : N) (c : pcfg) (g : gcfg) (mtu : N) (r : registry) (buf : list N)
+  (w : world) (bl : nat) (bb : N) (h : hdr),
+  c_mtu c = Some mtu ->
+  (576 <= mtu)%N ->
+  (mtu <= 9216)%N ->
+  (mtu <= c_rxsize c)%N ->
+  length buf = o (c_rxsize c) ->
+  BlockSafe.ledger_reg bl bb r w ->
+  parse_hdr buf = Some h ->
+  is_discover h = true ->
+  exists (r' : registry) (w' : world),
+  parse_frame no_fail no_fail junk ctx c g r buf w = Ok r' w' /\
+  (w_trace w' <> w_trace w <->
+  active (reg_state r ctx) = None \/ active (reg_state r ctx) = Some (h_rsrc h)) /\
+  BlockSafe.ledger_reg bl bb r' w'.
+Proof. exact C05_buffer_level. Qed.
+Print Assumptions C05_on_the_buffer_level_model.
